@@ -763,8 +763,15 @@ def check (op : String) (args : List String) (impl : String) : List (String × S
 
 end Oracle
 
+/-- does `needle` occur in `hay`? -/
+def containsSub (hay needle : String) : Bool := (hay.splitOn needle).length > 1
+
 def oracles (op : String) (args : List String) (impl : String) : List (String × String) :=
-  Oracle.check op args impl
+  let o := Oracle.check op args impl
+  -- any answer recording a panic of the crate is, by itself, a failing input of C06
+  if containsSub impl "panic" && !(o.any (fun p => p.1 == "C06")) then
+    ("C06", s!"the crate panicked while answering `{op}`: {impl}") :: o
+  else o
 
 partial def loop (h : IO.FS.Stream) (out : IO.FS.Stream) : IO Unit := do
   let line ← h.getLine
